@@ -21,7 +21,10 @@ namespace LD.C19
 /-- Strong form.  If `evalFlag` returns an error detail (or aborts, `ok = false`) and a logger is
 configured, then the LAST log line `l` is new (written during this call), its error is of the
 MALFORMED_FLAG class, and it names the flag `f` itself — or, only when the evaluation was aborted
-by a nested prerequisite, one of the prerequisite flags looked up during this call. -/
+by a nested prerequisite, one of the prerequisite flags the store returned for a lookup made during
+this call.  The line carries that flag's OWN key `pf.key`; the data provider is free to return, for
+the lookup key `k`, a flag whose own key is not `k` (for a provider that does not,
+`logged_flag_line_consistent` gives `l.flagKey ∈ ` the new lookups). -/
 theorem logged_flag_line {sf n : Nat} {env : Env} {f : Flag} {chain : List String} {st st' : St}
     {d : Detail} {ok : Bool} (hl : env.opts.logger = true)
     (h : evalFlag sf n env f chain st = (.done d ok, st'))
@@ -29,8 +32,26 @@ theorem logged_flag_line {sf n : Nat} {env : Env} {f : Flag} {chain : List Strin
     ∃ l, st'.logs.getLast? = some l ∧ st.logs.length < st'.logs.length ∧
       l.err.kind = .malformedFlag ∧
       (l.flagKey = f.key ∨
-        (ok = false ∧ l.flagKey ∈ st'.flagLookups.drop st.flagLookups.length)) :=
+        (ok = false ∧ ∃ k ∈ st'.flagLookups.drop st.flagLookups.length,
+          ∃ pf, env.store.findFlag k = some pf ∧ l.flagKey = pf.key)) :=
   evalFlag_diag sf hl n f chain st d ok st' h herr
+
+/-- The same for a store that files every flag under its own key: the line names `f` or one of the
+keys looked up during this call. -/
+theorem logged_flag_line_consistent {sf n : Nat} {env : Env} {f : Flag} {chain : List String}
+    {st st' : St} {d : Detail} {ok : Bool} (hst : StoreConsistent env.store)
+    (hl : env.opts.logger = true)
+    (h : evalFlag sf n env f chain st = (.done d ok, st'))
+    (herr : d.reason.kind = .error ∨ ok = false) :
+    ∃ l, st'.logs.getLast? = some l ∧ st.logs.length < st'.logs.length ∧
+      l.err.kind = .malformedFlag ∧
+      (l.flagKey = f.key ∨
+        (ok = false ∧ l.flagKey ∈ st'.flagLookups.drop st.flagLookups.length)) := by
+  obtain ⟨l, h1, h2, h3, h4⟩ := logged_flag_line hl h herr
+  refine ⟨l, h1, h2, h3, ?_⟩
+  rcases h4 with h4 | ⟨hok, h4⟩
+  · exact .inl h4
+  · exact .inr ⟨hok, NamesLookedUp.of_consistent hst h4⟩
 
 /-- At least one line was written during the call. -/
 theorem logged_flag {sf n : Nat} {env : Env} {f : Flag} {chain : List String} {st st' : St}
@@ -102,11 +123,12 @@ theorem logErr_appends {env : Env} (hl : env.opts.logger = true) (key : String) 
 /-! ### 2. `evaluate`: MALFORMED_FLAG ⇒ the log is not empty -/
 
 /-- Strong form: the last line of the log has a MALFORMED_FLAG-class error and names the evaluated
-flag or one of the flags looked up during the call. -/
+flag or (by its OWN key) one of the flags the store returned for a lookup made during the call. -/
 theorem logged_line (env : Env) (f : Flag) (hl : env.opts.logger = true)
     (h : (evaluate env f).result.detail.reason.errorKind = some .malformedFlag) :
     ∃ l, (evaluate env f).logs.getLast? = some l ∧ l.err.kind = .malformedFlag ∧
-      (l.flagKey = f.key ∨ l.flagKey ∈ (evaluate env f).flagLookups) := by
+      (l.flagKey = f.key ∨ ∃ k ∈ (evaluate env f).flagLookups,
+        ∃ pf, env.store.findFlag k = some pf ∧ l.flagKey = pf.key) := by
   by_cases hctx : env.ctx = .invalid
   · simp [evaluate, hctx, Detail.forError, Reason.error] at h
   · rw [evaluate_eq_finish env f hctx] at h ⊢
@@ -126,7 +148,20 @@ theorem logged_line (env : Env) (f : Flag) (hl : env.opts.logger = true)
       refine ⟨l, h1, h3, ?_⟩
       rcases h4 with h4 | ⟨_, h4⟩
       · exact .inl h4
-      · exact .inr (List.mem_of_mem_drop h4)
+      · exact .inr (h4.mono fun k hk => List.mem_of_mem_drop hk)
+
+/-- The same for a store that files every flag under its own key: the line names the evaluated flag
+or one of the keys looked up during the call. -/
+theorem logged_line_consistent (env : Env) (f : Flag) (hst : StoreConsistent env.store)
+    (hl : env.opts.logger = true)
+    (h : (evaluate env f).result.detail.reason.errorKind = some .malformedFlag) :
+    ∃ l, (evaluate env f).logs.getLast? = some l ∧ l.err.kind = .malformedFlag ∧
+      (l.flagKey = f.key ∨ l.flagKey ∈ (evaluate env f).flagLookups) := by
+  obtain ⟨l, h1, h2, h3⟩ := logged_line env f hl h
+  refine ⟨l, h1, h2, ?_⟩
+  rcases h3 with h3 | h3
+  · exact .inl h3
+  · exact .inr (NamesLookedUp.of_consistent hst h3)
 
 theorem logged (env : Env) (f : Flag) (hl : env.opts.logger = true)
     (h : (evaluate env f).result.detail.reason.errorKind = some .malformedFlag) :
@@ -227,13 +262,14 @@ def user : Ctx := .single { kind := "user", key := "u1" }
 /-- `g` is off with an out-of-range off variation; `c1`/`c2` form a prerequisite cycle; segment
 `A` refers to itself. -/
 def store : Store :=
-  { flags := [{ key := "g", on := false, offVariation := some 9, variations := [.bool true] },
-              { key := "c1", on := true, prerequisites := [⟨"c2", 0⟩], variations := [.bool true],
-                fallthrough := { variation := some 0 } },
-              { key := "c2", on := true, prerequisites := [⟨"c1", 0⟩], variations := [.bool true],
-                fallthrough := { variation := some 0 } }],
-    segments := [{ key := "A",
-                   rules := [{ clauses := [{ op := "segmentMatch", values := [.str "A"] }] }] }] }
+  Store.ofLists
+    [{ key := "g", on := false, offVariation := some 9, variations := [.bool true] },
+     { key := "c1", on := true, prerequisites := [⟨"c2", 0⟩], variations := [.bool true],
+       fallthrough := { variation := some 0 } },
+     { key := "c2", on := true, prerequisites := [⟨"c1", 0⟩], variations := [.bool true],
+       fallthrough := { variation := some 0 } }]
+    [{ key := "A",
+       rules := [{ clauses := [{ op := "segmentMatch", values := [.str "A"] }] }] }]
 
 def env (logger : Bool) : Env :=
   { opts := { logger := logger }, store := store, bs := none, ctx := user, rx := fun _ _ => none }
